@@ -105,7 +105,18 @@ pub fn run_phase(
                     Reply::Died(how) => {
                         worker = None;
                         respawns += 1;
-                        stub_record(&args, tier, idx, &corpus, "skipped_resource", &format!("worker ended: {how}"))
+                        let mut record =
+                            stub_record(&args, tier, idx, &corpus, "skipped_resource", &format!("worker ended: {how}"));
+                        if tier == Tier::InProc {
+                            // second chance: the same group with a process per launch
+                            if let Ok(mut w2) = WorkerProc::spawn(&args) {
+                                let retry = json!({"job": "group", "tier": tier.name(), "idx": idx, "isolation": "process"});
+                                if let Reply::Ok(v) = w2.request(&retry, group_timeout) {
+                                    record = v;
+                                }
+                            }
+                        }
+                        record
                     }
                 };
                 results.lock().unwrap().push(record);
